@@ -631,7 +631,7 @@ class SVGPath(SVGShape, SVGCommandSeq):
                     prev_cmd, prev_args = _relative_to_absolute(
                         prev_pos, prev_cmd, prev_args
                     )
-                if prev_cmd in short_to_long.values():
+                if prev_cmd == short_to_long[cmd]:
                     # reflect 2nd-last x,y pair over curr_pos and make it our first arg
                     prev_cp = Point(prev_args[-4], prev_args[-3])
                     new_cp = (2 * curr_pos.x - prev_cp.x, 2 * curr_pos.y - prev_cp.y)
